@@ -587,12 +587,12 @@ def short_path(p):
 class Facts:
     """all analysed crates of one feature configuration"""
 
-    def __init__(self, config="default", directory=None):
+    def __init__(self, config="default", directory=None, crates=None):
         self.config = config
         d = directory or dump.ensure(config)
         self.dir = d
         self.crates = {}
-        for c in dump.CRATES:
+        for c in (crates or dump.CRATES):
             fs = glob.glob(os.path.join(d, c + ".*.json"))
             if len(fs) != 1:
                 raise AnchorMissing("fact file for crate %s missing in %s" % (c, d))
